@@ -1035,3 +1035,70 @@ def r18_touching_partitions_overlap(ctx):
 
 
 RULES += [r18_touching_partitions_overlap]
+
+
+def r19_boolnum_meet_intersects_marks(ctx):
+    ctx.rule("C03.r19", "flat_boolean_numerical_domain: an implication remembered by one operand is valid only while ITS variables are "
+             "unchanged, so meet and narrowing combine the unchanged-variable marks with the JOIN of the dual set (intersection of the "
+             "marks); the meet (union) lets a variable reassigned in one operand count as unchanged again and revives its stale "
+             "constraint: (b := (v <= 0); v := 5) & (b2 := (v <= 100)), then assume(b) gives bottom", floor=3)
+    FB = "include/crab/domains/flat_boolean_domain.hpp"
+    n = 0
+    seen = set()
+    for fn in ctx.db.fns(FB):
+        if not (fn.get("cpk") or "").endswith("flat_boolean_numerical_domain") or fn["name"] not in ("operator&", "operator&=", "operator&&") or not fn.get("body"):
+            continue
+        if (fn["name"], fn["line"]) in seen:
+            continue
+        seen.add((fn["name"], fn["line"]))
+        combos = [c for c in walk(fn["body"]) if c.get("k") == "call" and c.get("op") in ("&", "&&", "|", "||") and "o" in c and
+                  is_field(strip(c["o"]), "m_unchanged_vars")]
+        if not combos:
+            ctx.undecided("%s: the combination of m_unchanged_vars was not found" % fn["name"], fn, fn["body"])
+            continue
+        for c in combos:
+            n += 1
+            if c["op"] in ("|", "||"):
+                ctx.ok("%s intersects the unchanged marks" % fn["name"], fn, c)
+            else:
+                ctx.bad("flat_boolean_numerical_domain::%s unites the unchanged-variable marks of its operands (`%s`): a stale implication of one "
+                        "operand is applied again" % (fn["name"], src(c)[:50]), fn, c, sig="boolnum-meet-unites-marks:%s" % fn["name"])
+    if n == 0:
+        ctx.fail("rule C03.r19: meet / narrowing of flat_boolean_numerical_domain not found")
+
+
+RULES += [r19_boolnum_meet_intersects_marks]
+
+
+def r20_select_bool_reads_cond_first(ctx):
+    from ..match import is_param
+    ctx.rule("C03.r20", "flat_boolean_numerical_domain::select_bool(lhs, cond, b1, b2): what is known about `cond` is read BEFORE the "
+             "product assigns lhs, or the aliasing lhs == cond is handled - the reduction that copies the facts of the chosen branch "
+             "evaluates cond, and with c := select_bool(c, x, y) it sees the NEW value of c and copies the facts of the wrong branch", floor=1)
+    FB = "include/crab/domains/flat_boolean_domain.hpp"
+    fs = [f for f in ctx.db.fns(FB, name="select_bool") if (f.get("cpk") or "").endswith("flat_boolean_numerical_domain") and f.get("body")]
+    if not ctx.need(fs, "flat_boolean_numerical_domain::select_bool"):
+        return
+    fn = fs[0]
+    body = fn["body"]
+    order = [x for x in walk(body) if (is_call(x, name="select_bool") and is_field(strip(x.get("o")), "m_product")) or is_call(x, name="fwd_reduction_select_bool")]
+    alias = [x for x in walk(body) if cmp_parts_(x) and any(is_param(z, fn, 0) for z in walk(x) if isinstance(z, dict) and z.get("k") == "ref")
+             and any(is_param(z, fn, 1) for z in walk(x) if isinstance(z, dict) and z.get("k") == "ref")]
+    if len(order) < 2:
+        ctx.undecided("select_bool: the product update and the reduction were not both found", fn, body)
+        return
+    first_is_reduction = is_call(order[0], name="fwd_reduction_select_bool")
+    if first_is_reduction or alias:
+        ctx.ok("cond is read before lhs is assigned (or the aliasing is handled)", fn, order[0])
+    else:
+        ctx.bad("flat_boolean_numerical_domain::select_bool updates the product (lhs := ...) and THEN runs the reduction that evaluates cond: with "
+                "lhs == cond - assume(!c); assume(y); c := select_bool(c, x, y); assume(c); assume(!x) - the state becomes bottom although "
+                "c = y = true, x = false is reachable", fn, order[0], sig="select-bool-cond-read-after-write")
+
+
+def cmp_parts_(x):
+    from ..match import cmp_parts
+    return cmp_parts(x) if isinstance(x, dict) and x.get("k") in ("call", "bin") and x.get("op") in ("==", "!=") else None
+
+
+RULES += [r20_select_bool_reads_cond_first]
